@@ -831,3 +831,12 @@ Lemma ci_witness_f8_passes_lemma :
   c16_normalize ci_witness_f8 = [66;73;32;73;68;32;97;32;69;73;32;97;49;32;40;32;69;73;32;60;52;49;62;32;41;32;84;106] /\
   c16_normalize (c16_normalize ci_witness_f8) = [66;73;32;73;68;32;97;32;69;73;32;97;49;32;40;32;69;73;32;40;65;41;32;41;32;84;106].
 Proof. split; vm_compute; reflexivity. Qed.
+
+(* the normal forms are exactly the fixpoints of normalisation (among the cleanly readable streams) *)
+Lemma ci_fixpoint_iff_normal_form_lemma : forall c ts,
+  c16_clean c = true -> c16_sem c = Some ts -> (c16_normalize c = c <-> ci_normal_form c).
+Proof.
+  intros c ts Hcl Hsem. split.
+  - intros Hfix. rewrite <- Hfix. eapply ci_normalize_normal_form_lemma; eassumption.
+  - intros NF. apply (ci_normal_form_fixpoint_lemma c NF Hcl).
+Qed.
